@@ -9,14 +9,19 @@ def two(chain):
     return "<-".join(chain.split("<-")[:2])
 
 def c16_patterns(path):
+    """Two families stay patterns (the same root cause is reached from dozens of failing allocations): lexer state
+    lost on failure, and module code answering a failed allocation with undefined.  Everything else is listed by its
+    exact signature (failing-allocation chain AND leaked-allocation / crash chain), so that a new way of leaking an
+    object that is already leaked somewhere else is still a new violation."""
     sigs = json.load(open(path))
     pats = collections.OrderedDict()
     for sig in sigs:
         p = sig.split("|"); k = p[0]
-        if k == "leak": pat = "leak|*|leaked@" + two(p[2][7:]) + "*"
+        if k == "leak" and any(x in p[2] for x in ("leaked@yara_yy", "leaked@hex_yy", "leaked@re_yy", "leaked@yr_re_ast_create<-yr_parse_re_string")):
+            pat = "leak|*|leaked@" + two(p[2][7:]) + "*"
         elif k == "silent": pat = "silent|*|fail@" + two(p[2][5:]) + "*"
-        elif k == "crash": pat = "crash|" + "<-".join(p[1].split("<-")[:2]) + "*"
-        else: pat = "|".join(p[:3]) + "|*"
+        elif k == "wrong-code": pat = "|".join(p[:3]) + "|*"
+        else: pat = sig
         pats[pat] = pats.get(pat, 0) + 1
     return list(pats)
 
